@@ -220,9 +220,29 @@ func runC12(c *Ctx, r *Report) {
 	{
 		ok := false
 		msg := "the patterns waited for are not the completion patterns plus the event's expected response (or the channel prompt when none is given)"
+		// the two alternatives: edges of a phi in the worker, or the returns of a helper that builds the list
+		type alt struct {
+			v    ssa.Value
+			from *ssa.BasicBlock
+		}
+		var alts []alt
 		if phi, isPhi := RA.Call.Args[2].(*ssa.Phi); isPhi && len(phi.Edges) == 2 {
-			nResp, nPrompt := 0, 0
 			for i, e := range phi.Edges {
+				alts = append(alts, alt{e, phi.Block().Preds[i]})
+			}
+		} else if hc, isCall := RA.Call.Args[2].(*ssa.Call); isCall {
+			if h := hc.Call.StaticCallee(); h != nil && h.Pkg == fn.Pkg && h.Object() != nil && !h.Object().Exported() {
+				allInstrs(h, func(in ssa.Instruction) {
+					if ret, isRet := in.(*ssa.Return); isRet && len(ret.Results) == 1 {
+						alts = append(alts, alt{ret.Results[0], ret.Block()})
+					}
+				})
+			}
+		}
+		if len(alts) == 2 {
+			nResp, nPrompt := 0, 0
+			for _, al := range alts {
+				e := al.v
 				call, isCall := e.(*ssa.Call)
 				if !isCall {
 					continue
@@ -232,9 +252,11 @@ func runC12(c *Ctx, r *Report) {
 					continue
 				}
 				els := variadicElems(call.Call.Args[1])
-				pred := phi.Block().Preds[i]
+				pred := al.from
 				respEdge, noRespEdge := false, false
-				for _, ec := range append(edgeConds(pred), edgeCond{}) {
+				conds := edgeConds(pred)
+				// a return block is itself the guarded block; a phi predecessor may end in the deciding branch
+				for _, ec := range append(conds, edgeCond{}) {
 					if ec.Cond == nil {
 						continue
 					}
